@@ -130,7 +130,11 @@ func (rt *runtime) putValue(reference referencer, value Value) {
 // halted: that panic must unwind the whole execution, no try/catch/finally of
 // the script may intercept it (see tryCatchEvaluate), whatever its Go type.
 func (rt *runtime) runInterrupt(fn func()) {
+	// The function may use the runtime (Run, Call, ...); blocks and loops it runs
+	// clear rt.labels, which may hold the label of the statement being entered.
+	labels := rt.labels
 	defer func() {
+		rt.labels = labels
 		if caught := recover(); caught != nil {
 			switch caught.(type) {
 			case *exception, *Error, ottoError, Value:
